@@ -22,27 +22,28 @@ extern void mpt_gnode_relink(MPT_STRUCT(node) *node)
 		return;
 	}
 	
-	if (node->children) {
-		node->children->parent = node;
+	if (!(node = start->children)) {
+		return;
 	}
-	node = node->children;
+	node->parent = start;
 	
-	while (node && node != start) {
-		if (node->children) {
-			node->children->parent = node;
-			if (node->next) {
-				node->next->parent = node->parent;
-				node->next->prev = node;
+	while (node != start) {
+		MPT_STRUCT(node) *next;
+		
+		/* descend to sublevel */
+		if ((next = node->children)) {
+			next->parent = node;
+			node = next;
+			continue;
+		}
+		/* successor of node or of closest parent below start */
+		while (!(next = node->next)) {
+			if ((node = node->parent) == start) {
+				return;
 			}
-			node = node->children;
 		}
-		if (node->next) {
-			node->next->parent = node->parent;
-			node->next->prev = node;
-			node = node->next;
-		}
-		else {
-			node = node->parent->next;
-		}
+		next->parent = node->parent;
+		next->prev = node;
+		node = next;
 	}
 }
